@@ -411,6 +411,7 @@ pub fn run_tapes(run: &mut Run, lanes: usize, cases: u32, tape_max: usize, check
                 let mut runner = TestRunner::new(cfg);
                 let stats = RefCell::new(Stats::default());
                 let failed = RefCell::new(false);
+                let first_failure: RefCell<Option<(Vec<u32>, Failure)>> = RefCell::new(None);
                 let strategy = crate::gen::tape_strategy(tape_max);
                 let r = runner.run(&strategy, |tape| {
                     let res = check_guarded(|| check(&tape));
@@ -432,6 +433,7 @@ pub fn run_tapes(run: &mut Run, lanes: usize, cases: u32, tape_max: usize, check
                             }
                             if !*failed.borrow() {
                                 stats.borrow_mut().evaluations += 1;
+                                *first_failure.borrow_mut() = Some((tape.clone(), f.clone()));
                             }
                             *failed.borrow_mut() = true;
                             Err(TestCaseError::fail(f.signature))
@@ -441,11 +443,19 @@ pub fn run_tapes(run: &mut Run, lanes: usize, cases: u32, tape_max: usize, check
                 let viol = match r {
                     Ok(()) => None,
                     Err(TestError::Fail(_, tape)) => {
-                        let f = match check_guarded(|| check(&tape)) {
-                            Err(f) => f,
-                            Ok(_) => Failure::new("flaky", "shrunk case passed on re-run (non-deterministic check)"),
-                        };
-                        Some(Violation { case: json!({ "tape": tape }), failure: f })
+                        match check_guarded(|| check(&tape)) {
+                            Err(f) => Some(Violation { case: json!({ "tape": tape }), failure: f }),
+                            Ok(_) => {
+                                // The shrunk case passes when run again: the failure depends on state left behind by
+                                // earlier cases on this thread (a cache, a thread-local, a process-wide table). Report
+                                // the original failing case; it may not reproduce in isolation.
+                                let (t0, f0) = first_failure.borrow_mut().take().unwrap_or((tape.clone(), Failure::new("unknown", "?")));
+                                let mut f = f0.clone();
+                                f.signature = format!("history-dependent:{}", f0.signature);
+                                f.msg = format!("result depends on what was loaded/called before on the same thread (the case fails within the run but passes alone): {}", f0.msg);
+                                Some(Violation { case: json!({ "tape": t0, "history_dependent": true }), failure: f })
+                            }
+                        }
                     }
                     Err(TestError::Abort(r)) => Some(Violation { case: Value::Null, failure: Failure::new("harness-abort", format!("proptest aborted: {}", r)) }),
                 };
